@@ -76,8 +76,18 @@ def pymode(i, k):
     return MODES[i] if k % 2 == 0 else MODE_STR[i]
 
 
+def obs_winfo(m):
+    w = m.get_word_info()
+    return {"surface": cps(w.surface), "hwl": w.head_word_length, "pos_id": w.pos_id, "norm": cps(w.normalized_form),
+            "dfwid": w.dictionary_form_word_id, "dform": cps(w.dictionary_form), "reading": cps(w.reading_form),
+            "a": [[x >> 28, x & 0x0FFFFFFF] for x in w.a_unit_split], "b": [[x >> 28, x & 0x0FFFFFFF] for x in w.b_unit_split],
+            "ws": [[x >> 28, x & 0x0FFFFFFF] for x in w.word_structure], "syn": list(w.synonym_group_ids),
+            "length": w.length()}
+
+
 def obs_morpheme(m):
     return {
+        "winfo": obs_winfo(m),
         "surface": cps(m.raw_surface()), "psurface": cps(m.surface()), "begin": m.begin(), "end": m.end(),
         "pos": [cps(p) for p in m.part_of_speech()], "pos_id": m.part_of_speech_id(),
         "dform": cps(m.dictionary_form()), "norm": cps(m.normalized_form()), "reading": cps(m.reading_form()),
